@@ -320,6 +320,9 @@ class SourceCatalog:
                                                     'convolved_data')
         self._segment_img = self._validate_segment_img(segment_img)
         self._error = self._validate_array(error, 'error')
+        if self._error is not None and self._error.dtype.kind in 'iu':
+            # squaring an integer array can overflow its dtype
+            self._error = self._error.astype(float)
         self._mask = self._validate_array(mask, 'mask')
         self._background = self._validate_array(background, 'background')
         self.wcs = wcs
@@ -2114,7 +2117,7 @@ class SourceCatalog:
         if self._error is None:
             err = self._null_values
         else:
-            err = np.sqrt(np.array([np.sum(np.asarray(arr, dtype=float)**2)
+            err = np.sqrt(np.array([np.sum(arr**2)
                                     for arr in self._error_values]))
 
         if self._data_unit is not None:
